@@ -164,3 +164,28 @@ def adjoint_of_rotation(env, cfg, ck):
     R = env.rot_raw('a', 3)
     Z = np.zeros((3, 3))
     ck.eq('adjoint-3x3', ck.call(b.adjoint, R), np.block([[R, Z], [Z, R]]))
+
+
+@contract('C13', targets=['spatialmath.twist.Twist3.Ad', 'spatialmath.twist.Twist3.ad', 'spatialmath.twist.Twist3.exp'],
+          configs=product(kind=['prismatic', 'revolute', 'general']))
+def twist_adjoint_is_adjoint_of_its_exponential(env, cfg, ck):
+    """S.Ad() = Ad(exp(S)) for every kind of twist, in particular a pure translation (w = 0), where
+    Ad = [[I, skew(v)], [0, I]]; S.ad() is the 6x6 matrix [[skew(w), skew(v)], [0, skew(w)]]"""
+    b, np, sm = env.base, env.np, env.sm
+    v = env.reals('v', 3, -1e3, 1e3)
+    if cfg['kind'] == 'prismatic':
+        w = [0, 0, 0]
+    elif cfg['kind'] == 'revolute':
+        # concrete rotational part (exp and the adjoint are polynomial in v for fixed w)
+        w = [env.const('3/10'), env.const('-2/5'), env.const('6/5')]
+    else:
+        w = [env.const('1/2'), 0, 0]
+    S = sm.Twist3(np.array(list(v) + list(w)))
+    sc = (1 + A.normsq(np, v)) ** 2
+    T = ck.call(lambda: S.exp().A)
+    ck.eq('Ad=Ad(exp)', ck.call(S.Ad), A.adjoint(np, T), scale=sc)
+    if cfg['kind'] == 'prismatic':
+        Z, I = np.zeros((3, 3)), np.eye(3)
+        ck.eq('Ad:prismatic', ck.call(S.Ad), np.block([[I, A.skew3(np, v)], [Z, I]]), scale=sc)
+    ad = ck.call(S.ad)
+    ck.eq('ad', ad, np.block([[A.skew3(np, w), A.skew3(np, v)], [np.zeros((3, 3)), A.skew3(np, w)]]), scale=sc)
